@@ -101,6 +101,37 @@ def _flatten_and(e):
     return [e]
 
 
+def ground_library(formulas):
+    """instances of the library axioms for exactly the applications that occur (what a trigger would instantiate)"""
+    out = []
+    apps = _collect(formulas, lambda e: e.decl().kind() == z3.Z3_OP_UNINTERPRETED and e.num_args() > 0 and e.decl().name() in ("pymod", "pydiv", "R6", "exp", "log", "tanh", "arctanh"))
+    r6 = []
+    for e in apps:
+        nm = e.decl().name()
+        if nm in ("pymod", "pydiv"):
+            a, b = e.arg(0), e.arg(1)
+            if _has_var(a) or _has_var(b):
+                continue
+            out.append(z3.Implies(b != 0, z3.And(a == PYDIV(a, b) * b + PYMOD(a, b), z3.Implies(b > 0, z3.And(0 <= PYMOD(a, b), PYMOD(a, b) < b)), z3.Implies(b < 0, z3.And(b < PYMOD(a, b), PYMOD(a, b) <= 0)))))
+        elif nm == "R6" and not _has_var(e.arg(0)):
+            t = e.arg(0)
+            r6.append(t)
+            out += [R6(R6(t)) == R6(t), R6(t) - t <= z3.RealVal("5e-7"), t - R6(t) <= z3.RealVal("5e-7")]
+        elif nm == "exp" and not _has_var(e.arg(0)):
+            out += [EXP(e.arg(0)) > 0, LOG(EXP(e.arg(0))) == e.arg(0)]
+        elif nm == "log" and not _has_var(e.arg(0)):
+            out.append(z3.Implies(e.arg(0) > 0, EXP(LOG(e.arg(0))) == e.arg(0)))
+        elif nm == "tanh" and not _has_var(e.arg(0)):
+            out += [TANH(e.arg(0)) > -1, TANH(e.arg(0)) < 1, ATANH(TANH(e.arg(0))) == e.arg(0)]
+        elif nm == "arctanh" and not _has_var(e.arg(0)):
+            out.append(z3.Implies(z3.And(e.arg(0) > -1, e.arg(0) < 1), TANH(ATANH(e.arg(0))) == e.arg(0)))
+    for i, t in enumerate(r6[:40]):
+        for u in r6[:40]:
+            if t.get_id() != u.get_id():
+                out.append(z3.Implies(t <= u, R6(t) <= R6(u)))
+    return out
+
+
 def ground(hyps, goal, cap=400):
     """quantifier-free weakening of hyps (sound for refutation *candidates* only)."""
     neg = z3.Not(goal)
@@ -301,14 +332,19 @@ def _job(idx):
                 out["verdict"] = "solver-disagreement"
         return out
 
-    r = _check(full, first_ms)
+    r = _check(full, first_ms, True, getattr(ob, "probes", None))
     log.append(("z3-prove", r["result"], round(r["time"], 3)))
     if r["result"] == "unsat":
         return proved("z3")
+    if r["result"] == "sat":
+        # the solver built a model of hyps + not(goal) for the full (possibly quantified) query: a refutation, not an open obligation
+        out["verdict"], out["model"], out["probes"] = "refuted", r.get("model", {}), r.get("probes", {})
+        return out
     if not refute:
         out["verdict"], out["reason"] = "unknown", r.get("reason")
         return out
-    g = ground(ax + ob.hyps, ob.goal)
+    g = ground(ob.hyps, ob.goal)        # user hypotheses: instantiated on the index terms in use
+    g = g + ground_library(g)             # library axioms: instantiated on the applications that occur
     f = _check(g, budget_ms, True, getattr(ob, "probes", None))
     log.append(("z3-refute", f["result"], round(f["time"], 3)))
     if f["result"] == "unsat":
